@@ -61,6 +61,38 @@ type Finding struct {
 	Status     string   `json:"status"` // open | fixed
 	Commit     string   `json:"commit,omitempty"`
 	Also       []string `json:"also,omitempty"` // further properties whose checks contain the same obligation
+	// Detail narrows a finding to the failure it describes: a regular expression that
+	// every message of the failed obligation ("; "-separated, before " on path") must
+	// match. A failure of the same obligation with another message is a new violation.
+	Detail string `json:"detail,omitempty"`
+}
+
+// unexplained returns the failed results that the finding does not describe.
+func (f Finding) unexplained(failed []driver.ObResult) []driver.ObResult {
+	if f.Detail == "" {
+		return nil
+	}
+	re, err := regexp.Compile(f.Detail)
+	if err != nil {
+		return failed
+	}
+	var out []driver.ObResult
+	for _, r := range failed {
+		msg := strings.SplitN(strings.TrimSpace(r.Output), "\n", 2)[0]
+		if i := strings.Index(msg, " on path "); i >= 0 {
+			msg = msg[:i]
+		}
+		ok := true
+		for _, piece := range strings.Split(msg, "; ") {
+			if !re.MatchString(piece) {
+				ok = false
+			}
+		}
+		if !ok {
+			out = append(out, r)
+		}
+	}
+	return out
 }
 
 func LoadFindings(path string) ([]Finding, error) {
@@ -225,7 +257,7 @@ func Run(ctx *Ctx, p *Property, level string) int {
 			total += a.n
 			discharged += a.ok
 			entry["verdict"] = "discharged"
-		} else if f, ok := matchFinding(open, n); ok {
+		} else if f, ok := matchFinding(open, n); ok && len(f.unexplained(a.failed)) == 0 {
 			knownN += a.n
 			entry["verdict"] = "known-finding"
 			if !seenFinding[f.Obligation] {
@@ -238,6 +270,10 @@ func Run(ctx *Ctx, p *Property, level string) int {
 			discharged += a.ok
 			entry["verdict"] = "FAILED"
 			violations++
+			if f, ok := matchFinding(open, n); ok {
+				// the obligation is a listed finding, but it fails in a way the finding does not describe
+				a.failed = f.unexplained(a.failed)
+			}
 			rp := writeReplay(ctx, p.ID, a.failed[0])
 			suffix := " no-failing-input-found"
 			if strings.HasSuffix(rp, "#reproduced") {
